@@ -51,7 +51,7 @@ void h_gate(void) {
 }
 """ % blk
     return dict(unit="K27_gate_" + name, lang="c", source=rel + " (input-validation block of main)", text=fn, entry="h_gate",
-                enforce="gate", mode="proof", timeout=120, bound="every predicate valuation, every rank of every communicator size",
+                enforce="gate", mode="proof", timeout=600, bound="every predicate valuation, every rank of every communicator size",
                 rewrites=log, dropped=["option parsing, file reading, algorithm phase"],
                 functions={"%s: gating block" % name: "proved"},
                 assumptions=["the three predicates are represented by unconstrained booleans (their own contract is C10/K25)"],
